@@ -84,4 +84,804 @@ theorem addAll_sorted_stable {α : Type} (ord : α → Nat) (xs : List α) :
       by_cases hx : ord x = k <;> simp [hx]
   simpa using this [] List.Pairwise.nil
 
+/-! ## the insertion result is *the* stable sort -/
+
+theorem stable_unique {α : Type} (ord : α → Nat) : ∀ (l1 l2 : List α),
+    l1.Pairwise (fun a b => ord a ≤ ord b) → l2.Pairwise (fun a b => ord a ≤ ord b) →
+    (∀ k, l1.filter (fun a => ord a = k) = l2.filter (fun a => ord a = k)) → l1 = l2 := by
+  intro l1
+  induction l1 with
+  | nil =>
+    intro l2 _ _ hf
+    cases l2 with
+    | nil => rfl
+    | cons b r2 => have := hf (ord b); simp at this
+  | cons a r1 ih =>
+    intro l2 h1 h2 hf
+    cases l2 with
+    | nil => have := hf (ord a); simp at this
+    | cons b r2 =>
+      rw [List.pairwise_cons] at h1 h2
+      have hab : ord a ≤ ord b := by
+        have hb : b ∈ (a :: r1).filter (fun x => ord x = ord b) := by rw [hf (ord b)]; simp
+        have hb' := (List.mem_filter.mp hb).1
+        rcases List.mem_cons.mp hb' with rfl | hb'
+        · exact le_refl _
+        · exact h1.1 b hb'
+      have hba : ord b ≤ ord a := by
+        have ha : a ∈ (b :: r2).filter (fun x => ord x = ord a) := by rw [← hf (ord a)]; simp
+        have ha' := (List.mem_filter.mp ha).1
+        rcases List.mem_cons.mp ha' with rfl | ha'
+        · exact le_refl _
+        · exact h2.1 a ha'
+      have heq : ord a = ord b := le_antisymm hab hba
+      have h0 := hf (ord a)
+      simp only [List.filter_cons, heq, decide_true, if_true] at h0
+      simp only [← heq] at h0
+      have h0' := h0
+      simp only [heq] at h0'
+      obtain ⟨rfl, htl⟩ := List.cons.inj h0'
+      congr 1
+      apply ih r2 h1.2 h2.2
+      intro k
+      by_cases hk : ord a = k
+      · subst hk; exact htl
+      · have := hf k
+        simpa [List.filter_cons, hk] using this
+
+theorem stableSort_spec {α : Type} (ord : α → Nat) (xs : List α) :
+    (stableSort ord xs).Pairwise (fun a b => ord a ≤ ord b) ∧
+    ∀ k, (stableSort ord xs).filter (fun a => ord a = k) = xs.filter (fun a => ord a = k) := by
+  have htr : ∀ (a b c : α), decide (ord a ≤ ord b) = true → decide (ord b ≤ ord c) = true → decide (ord a ≤ ord c) = true := by
+    intro a b c h1 h2; simp at *; omega
+  have htot : ∀ (a b : α), (decide (ord a ≤ ord b) || decide (ord b ≤ ord a)) = true := by
+    intro a b; simp; omega
+  constructor
+  · have := List.pairwise_mergeSort htr htot xs
+    simpa [stableSort] using this
+  · intro k
+    have hsub : List.Sublist (xs.filter (fun a => ord a = k)) (stableSort ord xs) := by
+      apply List.sublist_mergeSort htr htot _ List.filter_sublist
+      rw [List.pairwise_iff_forall_sublist]
+      intro a b hab
+      have ha : a ∈ xs.filter (fun a => ord a = k) := hab.subset (by simp)
+      have hb : b ∈ xs.filter (fun a => ord a = k) := hab.subset (by simp)
+      simp at ha hb
+      simp; omega
+    have h2 := hsub.filter (fun a => decide (ord a = k))
+    rw [List.filter_filter] at h2
+    simp only [Bool.and_self] at h2
+    have hperm : ((stableSort ord xs).filter (fun a => ord a = k)).length = (xs.filter (fun a => ord a = k)).length :=
+      ((List.mergeSort_perm xs _).filter _).length_eq
+    exact (h2.eq_of_length hperm.symm).symm
+
+theorem addAll_eq_stableSort {α : Type} (ord : α → Nat) (xs : List α) : addAll ord xs = stableSort ord xs := by
+  obtain ⟨h1, h2⟩ := addAll_sorted_stable ord xs
+  obtain ⟨h3, h4⟩ := stableSort_spec ord xs
+  exact stable_unique ord _ _ h1 h3 (fun k => (h2 k).trans (h4 k).symm)
+
+
+/-! ## traversal of the three slot lists -/
+
+theorem runPrep_noPanic (ps : List PSlot) (h : prepPanics ps = false) :
+    runPrep ps = (ps.map (fun s => Call.prep s.id), hooksOfP ps, false) := by
+  induction ps with
+  | nil => rfl
+  | cons s r ih =>
+    simp only [prepPanics, List.any_cons, Bool.or_eq_false_iff, decide_eq_false_iff_not] at h
+    have ih' := ih (by simpa [prepPanics] using h.2)
+    cases hb : s.beh with
+    | panic => exact absurd hb h.1
+    | ok => simp [runPrep, hb, ih', hooksOfP]
+
+theorem runPrep_panic (ps : List PSlot) (h : prepPanics ps = true) : (runPrep ps).2.2 = true := by
+  induction ps with
+  | nil => simp [prepPanics] at h
+  | cons s r ih =>
+    cases hb : s.beh with
+    | panic => simp [runPrep, hb]
+    | ok =>
+      have : prepPanics r = true := by simpa [prepPanics, hb] using h
+      simp [runPrep, hb, ih this]
+
+theorem runPrep_prefix (ps : List PSlot) : (runPrep ps).1 <+: ps.map (fun s => Call.prep s.id) := by
+  induction ps with
+  | nil => simp [runPrep]
+  | cons s r ih =>
+    cases hb : s.beh with
+    | panic => simp [runPrep, hb, List.prefix_cons_iff]
+    | ok => simpa [runPrep, hb, List.prefix_cons_iff] using ih
+
+theorem stopper_cons (s : RSlot) (r : List RSlot) :
+    stopper (s :: r) = if s.beh.passes then stopper r else some s := by
+  unfold stopper
+  rw [List.find?_cons]
+  cases s.beh.passes <;> simp
+
+theorem ranRules_cons (s : RSlot) (r : List RSlot) :
+    ranRules (s :: r) = if s.beh.passes then s :: ranRules r else [s] := by
+  unfold ranRules
+  rw [stopper_cons, List.takeWhile_cons]
+  cases s.beh.passes <;> simp
+
+theorem stopOf_cons (s : RSlot) (r : List RSlot) :
+    stopOf (s :: r) = if s.beh.passes then stopOf r else stopOfSlot s := by
+  unfold stopOf
+  rw [stopper_cons]
+  cases s.beh.passes <;> simp
+
+theorem runRules_calls (c : Nat) (rs : List RSlot) (h : Heap) :
+    (runRules c rs h).2.1 = (ranRules rs).map (fun s => Call.check s.id) ∧
+    (runRules c rs h).2.2.1 = hooksOfR (ranRules rs) := by
+  induction rs generalizing h with
+  | nil => simp [runRules, ranRules, stopper, hooksOfR]
+  | cons s r ih =>
+    rw [ranRules_cons]
+    cases hb : s.beh with
+    | panic => simp [runRules, hb, RB.passes, hooksOfR]
+    | block st typ => simp [runRules, hb, RB.passes, hooksOfR]
+    | wait =>
+      have := ih (newTokenResult h 2 {}).1
+      simp [runRules, hb, RB.passes, hooksOfR, this.1, this.2] 
+    | pass =>
+      have := ih (newTokenResult h 0 {}).1
+      simp [runRules, hb, RB.passes, hooksOfR, this.1, this.2]
+    | nil =>
+      have := ih h
+      simp [runRules, hb, RB.passes, hooksOfR, this.1, this.2]
+
+
+theorem resetToBlockedWith_read (h : Heap) (t : Nat) (b : BErr) :
+    ((resetToBlockedWith h t b).trs t).status = 1 ∧ getBE (resetToBlockedWith h t b) t = some b := by
+  unfold resetToBlockedWith
+  cases hbe : (h.trs t).be with
+  | none => simp [allocBE, upd, getBE]
+  | some a => simp [upd, getBE]
+
+theorem newTokenResult_read (h : Heap) (st : Nat) (b : BErr) :
+    ((newTokenResult h st b).1.trs (newTokenResult h st b).2).status = st ∧
+    getBE (newTokenResult h st b).1 (newTokenResult h st b).2 = some b := by
+  simp [newTokenResult, allocBE, allocTR, upd, getBE]
+
+theorem doBlock_read (c : Nat) (s : RSlot) (st : Style) (typ : Nat) (h : Heap) :
+    ((doBlock c s st typ h).1.trs (doBlock c s st typ h).2).status = 1 ∧
+    getBE (doBlock c s st typ h).1 (doBlock c s st typ h).2 = some (blockVal s typ) := by
+  cases st with
+  | fresh => exact newTokenResult_read h 1 _
+  | ctx => exact resetToBlockedWith_read h _ _
+  | own => exact resetToBlockedWith_read h _ _
+
+theorem runRules_allPass (c : Nat) (rs : List RSlot) (h : Heap) (hs : stopOf rs = .allPass) :
+    (runRules c rs h).2.2.2 = .allPass := by
+  induction rs generalizing h with
+  | nil => rfl
+  | cons s r ih =>
+    rw [stopOf_cons] at hs
+    cases hb : s.beh with
+    | panic => simp [hb, RB.passes, stopOfSlot] at hs
+    | block st typ => simp [hb, RB.passes, stopOfSlot] at hs
+    | wait => simp only [hb, RB.passes, if_true] at hs; simp [runRules, hb, ih _ hs]
+    | pass => simp only [hb, RB.passes, if_true] at hs; simp [runRules, hb, ih _ hs]
+    | nil => simp only [hb, RB.passes, if_true] at hs; simp [runRules, hb, ih _ hs]
+
+theorem runRules_panic (c : Nat) (rs : List RSlot) (h : Heap) (hs : stopOf rs = .panic) :
+    (runRules c rs h).2.2.2 = .panic := by
+  induction rs generalizing h with
+  | nil => simp [stopOf, stopper] at hs
+  | cons s r ih =>
+    rw [stopOf_cons] at hs
+    cases hb : s.beh with
+    | panic => simp [runRules, hb]
+    | block st typ => simp [hb, RB.passes, stopOfSlot] at hs
+    | wait => simp only [hb, RB.passes, if_true] at hs; simp [runRules, hb, ih _ hs]
+    | pass => simp only [hb, RB.passes, if_true] at hs; simp [runRules, hb, ih _ hs]
+    | nil => simp only [hb, RB.passes, if_true] at hs; simp [runRules, hb, ih _ hs]
+
+theorem runRules_block (c : Nat) (rs : List RSlot) (h : Heap) (s0 : RSlot) (typ0 : Nat)
+    (hs : stopOf rs = .block s0 typ0) :
+    ∃ t, (runRules c rs h).2.2.2 = .blocked t ∧ ((runRules c rs h).1.trs t).status = 1 ∧
+      getBE (runRules c rs h).1 t = some (blockVal s0 typ0) := by
+  induction rs generalizing h with
+  | nil => simp [stopOf, stopper] at hs
+  | cons s r ih =>
+    rw [stopOf_cons] at hs
+    cases hb : s.beh with
+    | panic => simp [hb, RB.passes, stopOfSlot] at hs
+    | block st typ =>
+      simp only [hb, RB.passes, stopOfSlot] at hs
+      simp only [Bool.false_eq_true, if_false, Stop.block.injEq] at hs
+      obtain ⟨rfl, rfl⟩ := hs
+      refine ⟨(doBlock c s st typ h).2, ?_, ?_, ?_⟩
+      · simp [runRules, hb]
+      · simpa [runRules, hb] using (doBlock_read c s st typ h).1
+      · simpa [runRules, hb] using (doBlock_read c s st typ h).2
+    | wait =>
+      simp only [hb, RB.passes, if_true] at hs
+      obtain ⟨t, h1, h2, h3⟩ := ih (newTokenResult h 2 {}).1 hs
+      exact ⟨t, by simp [runRules, hb, h1], by simpa [runRules, hb] using h2, by simpa [runRules, hb] using h3⟩
+    | pass =>
+      simp only [hb, RB.passes, if_true] at hs
+      obtain ⟨t, h1, h2, h3⟩ := ih (newTokenResult h 0 {}).1 hs
+      exact ⟨t, by simp [runRules, hb, h1], by simpa [runRules, hb] using h2, by simpa [runRules, hb] using h3⟩
+    | nil =>
+      simp only [hb, RB.passes, if_true] at hs
+      obtain ⟨t, h1, h2, h3⟩ := ih h hs
+      exact ⟨t, by simp [runRules, hb, h1], by simpa [runRules, hb] using h2, by simpa [runRules, hb] using h3⟩
+
+theorem runStats_noPanic (blk : Option (Option BErr)) (ss : List SSlot) (h : statPanics blk ss = false) :
+    runStats blk ss = (ss.map (statCall blk), false) := by
+  induction ss with
+  | nil => rfl
+  | cons s r ih =>
+    cases blk with
+    | none =>
+      simp only [statPanics, List.any_cons, Bool.or_eq_false_iff, decide_eq_false_iff_not] at h
+      have := ih (by simpa [statPanics] using h.2)
+      simp [runStats, h.1, this, statCall]
+    | some b =>
+      simp only [statPanics, List.any_cons, Bool.or_eq_false_iff, decide_eq_false_iff_not] at h
+      have := ih (by simpa [statPanics] using h.2)
+      simp [runStats, h.1, this, statCall]
+
+theorem runStats_panic (blk : Option (Option BErr)) (ss : List SSlot) (h : statPanics blk ss = true) :
+    (runStats blk ss).2 = true := by
+  induction ss with
+  | nil => cases blk <;> simp [statPanics] at h
+  | cons s r ih =>
+    cases blk with
+    | none =>
+      by_cases hb : s.beh = .pPassed
+      · simp [runStats, hb]
+      · have : statPanics none r = true := by simpa [statPanics, hb] using h
+        simp [runStats, hb, ih this]
+    | some b =>
+      by_cases hb : s.beh = .pBlocked
+      · simp [runStats, hb]
+      · have : statPanics (some b) r = true := by simpa [statPanics, hb] using h
+        simp [runStats, hb, ih this]
+
+theorem runStats_prefix (blk : Option (Option BErr)) (ss : List SSlot) :
+    (runStats blk ss).1 <+: ss.map (statCall blk) := by
+  induction ss with
+  | nil => simp [runStats]
+  | cons s r ih =>
+    cases blk with
+    | none =>
+      by_cases hb : s.beh = .pPassed
+      · simp [runStats, hb, statCall, List.prefix_cons_iff]
+      · simpa [runStats, hb, statCall, List.prefix_cons_iff] using ih
+    | some b =>
+      by_cases hb : s.beh = .pBlocked
+      · simp [runStats, hb, statCall, List.prefix_cons_iff]
+      · simpa [runStats, hb, statCall, List.prefix_cons_iff] using ih
+
+theorem runHandlers_noPanic (k : Hooks) (h : hooksPanic k = false) :
+    runHandlers k = (k.map (fun x => Call.handler x.1), false) := by
+  induction k with
+  | nil => rfl
+  | cons x r ih =>
+    obtain ⟨id, b⟩ := x
+    simp only [hooksPanic, List.any_cons, Bool.or_eq_false_iff, decide_eq_false_iff_not] at h
+    have := ih (by simpa [hooksPanic] using h.2)
+    simp [runHandlers, h.1, this]
+
+theorem runCompleted_noPanic (ss : List SSlot) (h : ss.any (fun s => s.beh = .pCompleted) = false) :
+    runCompleted ss = (ss.map (fun s => Call.completed s.id), false) := by
+  induction ss with
+  | nil => rfl
+  | cons s r ih =>
+    simp only [List.any_cons, Bool.or_eq_false_iff, decide_eq_false_iff_not] at h
+    have := ih h.2
+    simp [runCompleted, h.1, this]
+
+
+/-! ## `SlotChain.Entry` against the reference -/
+
+theorem chainEntry_pass (ch : ChainDef) (c : Nat) (h : Heap) (hp : prepPanics ch.ps = false)
+    (hs : stopOf ch.rs = .allPass) (hst : statPanics none ch.ss = false) :
+    (chainEntry ch c h).2.1 = specEntryCalls ch ∧ (chainEntry ch c h).2.2.1 = specHooks ch ∧
+    (chainEntry ch c h).2.2.2 = some ((chainEntry ch c h).1.ctxs c) ∧
+    ((chainEntry ch c h).1.trs ((chainEntry ch c h).1.ctxs c)).status = 0 := by
+  have hc := runRules_calls c ch.rs h
+  have ho := runRules_allPass c ch.rs h hs
+  unfold chainEntry
+  simp only [runPrep_noPanic _ hp]
+  rcases hrr : runRules c ch.rs h with ⟨h2, l2, k2, ro⟩
+  rw [hrr] at hc ho
+  simp only at hc ho
+  subst ho
+  simp only [runStats_noPanic _ _ hst, Bool.false_eq_true, if_false]
+  refine ⟨?_, ?_, ?_, ?_⟩
+  · simp [specEntryCalls, hc.1, hs, Stop.blk]
+  · simp [specHooks, hc.2]
+  · simp
+  · simp [resetToPass, upd]
+
+theorem chainEntry_block (ch : ChainDef) (c : Nat) (h : Heap) (s : RSlot) (typ : Nat) (hp : prepPanics ch.ps = false)
+    (hs : stopOf ch.rs = .block s typ) (hst : statPanics (some (some (blockVal s typ))) ch.ss = false) :
+    (chainEntry ch c h).2.1 = specEntryCalls ch ∧ (chainEntry ch c h).2.2.1 = specHooks ch ∧
+    (chainEntry ch c h).2.2.2 = some ((chainEntry ch c h).1.ctxs c) ∧
+    ((chainEntry ch c h).1.trs ((chainEntry ch c h).1.ctxs c)).status = 1 ∧
+    getBE (chainEntry ch c h).1 ((chainEntry ch c h).1.ctxs c) = some (blockVal s typ) := by
+  have hc := runRules_calls c ch.rs h
+  obtain ⟨t, ho, hst1, hbe⟩ := runRules_block c ch.rs h s typ hs
+  unfold chainEntry
+  simp only [runPrep_noPanic _ hp]
+  rcases hrr : runRules c ch.rs h with ⟨h2, l2, k2, ro⟩
+  rw [hrr] at hc ho hst1 hbe
+  simp only at hc ho hst1 hbe
+  subst ho
+  have hblk : isBlockedTR { h2 with ctxs := upd h2.ctxs c t } t = true := by simp [isBlockedTR, hst1]
+  have hbe' : getBE { h2 with ctxs := upd h2.ctxs c t } t = some (blockVal s typ) := by simpa [getBE] using hbe
+  simp only [hblk, if_true, hbe', runStats_noPanic _ _ hst, Bool.false_eq_true, if_false]
+  refine ⟨?_, ?_, ?_, ?_, ?_⟩
+  · simp [specEntryCalls, hc.1, hs, Stop.blk]
+  · simp [specHooks, hc.2]
+  · simp [upd]
+  · simpa [upd] using hst1
+  · simpa [upd, getBE] using hbe
+
+theorem chainEntry_panics (ch : ChainDef) (c : Nat) (h : Heap) (hp : entryPanics ch = true) :
+    (chainEntry ch c h).2.2.2 = none := by
+  unfold chainEntry
+  by_cases h1 : prepPanics ch.ps = true
+  · have := runPrep_panic _ h1
+    rcases hrp : runPrep ch.ps with ⟨l1, k1, p1⟩
+    rw [hrp] at this
+    simp only at this
+    subst this
+    simp
+  · simp only [Bool.not_eq_true] at h1
+    simp only [runPrep_noPanic _ h1, Bool.false_eq_true, if_false]
+    simp only [entryPanics, h1, Bool.false_or, Bool.or_eq_true] at hp
+    rcases hrr : runRules c ch.rs h with ⟨h2, l2, k2, ro⟩
+    cases hs : stopOf ch.rs with
+    | panic =>
+      have := runRules_panic c ch.rs h hs
+      rw [hrr] at this
+      simp only at this
+      subst this
+      simp
+    | allPass =>
+      have := runRules_allPass c ch.rs h hs
+      rw [hrr] at this
+      simp only at this
+      subst this
+      simp only [hs, Stop.isPanic, Bool.false_eq_true, false_or, Stop.blk] at hp
+      simp [runStats_panic _ _ hp]
+    | block s typ =>
+      obtain ⟨t, ho, hst1, hbe⟩ := runRules_block c ch.rs h s typ hs
+      rw [hrr] at ho hst1 hbe
+      simp only at ho hst1 hbe
+      subst ho
+      simp only [hs, Stop.isPanic, Bool.false_eq_true, false_or, Stop.blk] at hp
+      have hblk : isBlockedTR { h2 with ctxs := upd h2.ctxs c t } t = true := by simp [isBlockedTR, hst1]
+      have hbe' : getBE { h2 with ctxs := upd h2.ctxs c t } t = some (blockVal s typ) := by simpa [getBE] using hbe
+      simp [hblk, hbe', runStats_panic _ _ hp]
+
+
+theorem chainEntry_prefix (ch : ChainDef) (c : Nat) (h : Heap) :
+    (chainEntry ch c h).2.1 <+: specEntryCalls ch := by
+  unfold chainEntry specEntryCalls
+  by_cases h1 : prepPanics ch.ps = true
+  · have hp := runPrep_panic _ h1
+    have hpre := runPrep_prefix ch.ps
+    rcases hrp : runPrep ch.ps with ⟨l1, k1, p1⟩
+    rw [hrp] at hp hpre
+    simp only at hp hpre
+    subst hp
+    simp only [if_true]
+    rw [List.append_assoc]
+    exact hpre.trans (List.prefix_append _ _)
+  · simp only [Bool.not_eq_true] at h1
+    simp only [runPrep_noPanic _ h1, Bool.false_eq_true, if_false]
+    have hc := runRules_calls c ch.rs h
+    rcases hrr : runRules c ch.rs h with ⟨h2, l2, k2, ro⟩
+    rw [hrr] at hc
+    simp only at hc
+    cases hs : stopOf ch.rs with
+    | panic =>
+      have := runRules_panic c ch.rs h hs
+      rw [hrr] at this
+      simp only at this
+      subst this
+      simp only [hc.1]
+      exact List.prefix_append _ _
+    | allPass =>
+      have := runRules_allPass c ch.rs h hs
+      rw [hrr] at this
+      simp only at this
+      subst this
+      simp only [hc.1, Stop.blk]
+      exact (List.prefix_append_right_inj _).mpr (runStats_prefix none ch.ss)
+    | block s typ =>
+      obtain ⟨t, ho, hst1, hbe⟩ := runRules_block c ch.rs h s typ hs
+      rw [hrr] at ho hst1 hbe
+      simp only at ho hst1 hbe
+      subst ho
+      have hblk : isBlockedTR { h2 with ctxs := upd h2.ctxs c t } t = true := by simp [isBlockedTR, hst1]
+      have hbe' : getBE { h2 with ctxs := upd h2.ctxs c t } t = some (blockVal s typ) := by simpa [getBE] using hbe
+      simp only [hblk, if_true, hbe', hc.1, Stop.blk]
+      exact (List.prefix_append_right_inj _).mpr (runStats_prefix _ ch.ss)
+
+/-! ## `api.entry` against the reference -/
+
+/-- the verdict the caller sees -/
+def EntryRes.verdict : EntryRes → Option BErr
+  | .blocked _ _ b => some b
+  | _ => none
+
+theorem apiEntry_panics (ch : ChainDef) (h : Heap) (hp : entryPanics ch = true) :
+    ∃ c ks, (apiEntry ch h).2.2 = .passed c ks := by
+  unfold apiEntry
+  rcases hpg : poolGet h with ⟨h1, c⟩
+  dsimp only
+  have := chainEntry_panics ch c h1 hp
+  rcases hce : chainEntry ch c h1 with ⟨h2, l, ks, r⟩
+  rw [hce] at this
+  simp only at this
+  subst this
+  exact ⟨c, ks, rfl⟩
+
+theorem entryPanics_false (ch : ChainDef) (hp : entryPanics ch = false) :
+    prepPanics ch.ps = false ∧ (stopOf ch.rs).isPanic = false ∧ statPanics (stopOf ch.rs).blk ch.ss = false := by
+  simpa [entryPanics, Bool.or_eq_false_iff, and_assoc] using hp
+
+theorem apiEntry_pass (ch : ChainDef) (h : Heap) (hp : entryPanics ch = false) (hs : stopOf ch.rs = .allPass) :
+    (apiEntry ch h).2.1 = specEntryCalls ch ∧
+    (apiEntry ch h).2.2 = .passed (poolGet h).2 (specHooks ch) ∧
+    ((apiEntry ch h).1.trs ((apiEntry ch h).1.ctxs (poolGet h).2)).status = 0 := by
+  obtain ⟨h1, _, h3⟩ := entryPanics_false ch hp
+  rw [hs] at h3
+  unfold apiEntry
+  rcases hpg : poolGet h with ⟨hh, c⟩
+  dsimp only
+  obtain ⟨e1, e2, e3, e4⟩ := chainEntry_pass ch c hh h1 hs h3
+  rcases hce : chainEntry ch c hh with ⟨h2, l, ks, r⟩
+  rw [hce] at e1 e2 e3 e4
+  simp only at e1 e2 e3 e4
+  subst e1 e2 e3
+  have : isBlockedTR h2 (h2.ctxs c) = false := by simp [isBlockedTR, e4]
+  simp [this, e4]
+
+theorem apiEntry_block (ch : ChainDef) (h : Heap) (s : RSlot) (typ : Nat) (hp : entryPanics ch = false)
+    (hs : stopOf ch.rs = .block s typ) :
+    (apiEntry ch h).2.1 = specEntryCalls ch ++ (runHandlers (specHooks ch)).1 ∧
+    ∃ a, (apiEntry ch h).2.2 = .blocked (poolGet h).2 a (blockVal s typ) ∧ (apiEntry ch h).1.bes a = blockVal s typ ∧
+      a ∈ (apiEntry ch h).1.held := by
+  obtain ⟨h1, _, h3⟩ := entryPanics_false ch hp
+  rw [hs] at h3
+  unfold apiEntry
+  rcases hpg : poolGet h with ⟨hh, c⟩
+  dsimp only
+  obtain ⟨e1, e2, e3, e4, e5⟩ := chainEntry_block ch c hh s typ h1 hs h3
+  rcases hce : chainEntry ch c hh with ⟨h2, l, ks, r⟩
+  rw [hce] at e1 e2 e3 e4 e5
+  simp only at e1 e2 e3 e4 e5
+  subst e1 e2 e3
+  have : isBlockedTR h2 (h2.ctxs c) = true := by simp [isBlockedTR, e4]
+  simp only [this, if_true, e5]
+  refine ⟨by simp [exitBody, allocBE, isBlockedTR, e4], h2.nbe, by simp [allocBE], ?_, ?_⟩
+  · simp [exitBody, allocBE, refurbish, poolPut, resetToPass]
+    cases h2.priv <;> simp [upd]
+  · simp [exitBody, allocBE, refurbish, poolPut, resetToPass]
+    cases h2.priv <;> simp
+
+
+theorem apiEntry_no_escape (ch : ChainDef) (h : Heap) : (apiEntry ch h).2.2 ≠ .escaped := by
+  cases hp : entryPanics ch with
+  | true => obtain ⟨c, ks, e⟩ := apiEntry_panics ch h hp; rw [e]; simp
+  | false =>
+    cases hs : stopOf ch.rs with
+    | allPass => rw [(apiEntry_pass ch h hp hs).2.1]; simp
+    | block s typ => obtain ⟨_, a, e, _⟩ := apiEntry_block ch h s typ hp hs; rw [e]; simp
+    | panic => have := (entryPanics_false ch hp).2.1; simp [hs, Stop.isPanic] at this
+
+/-! ## exit -/
+
+theorem exitBody_log (ss : List SSlot) (hooks : Hooks) (c : Nat) (h : Heap) (hb : isBlockedTR h (h.ctxs c) = false)
+    (l : List Call) (hl : specExitLog ss hooks = some l) : (exitBody ss hooks c h).2 = l := by
+  unfold specExitLog at hl
+  split_ifs at hl with hc
+  simp only [Bool.or_eq_true, not_or, Bool.not_eq_true] at hc
+  simp only [Option.some.injEq] at hl
+  subst hl
+  simp [exitBody, runHandlers_noPanic _ hc.1, runCompleted_noPanic _ hc.2, hb]
+
+theorem exitBody_blocked (ss : List SSlot) (hooks : Hooks) (c : Nat) (h : Heap) (hb : isBlockedTR h (h.ctxs c) = true) :
+    (exitBody ss hooks c h).2 = (runHandlers hooks).1 := by
+  simp [exitBody, hb]
+
+/-! ## heap invariant: what callers hold is never referenced by a pooled `TokenResult` -/
+
+structure Heap.Inv (h : Heap) : Prop where
+  held_lt : ∀ a ∈ h.held, a < h.nbe
+  be_lt : ∀ t a, (h.trs t).be = some a → a < h.nbe
+  be_nh : ∀ t a, (h.trs t).be = some a → a ∉ h.held
+
+/-- `h'` comes after `h`: the invariant is kept and every block error handed to a caller so far is still held and unchanged -/
+def Heap.Ext (h h' : Heap) : Prop :=
+  h.Inv → h'.Inv ∧ ∀ a ∈ h.held, a ∈ h'.held ∧ h'.bes a = h.bes a
+
+theorem Heap.Ext.refl (h : Heap) : h.Ext h := fun hi => ⟨hi, fun _ ha => ⟨ha, rfl⟩⟩
+
+theorem Heap.Ext.trans {h1 h2 h3 : Heap} (a : h1.Ext h2) (b : h2.Ext h3) : h1.Ext h3 := by
+  intro hi
+  obtain ⟨i2, s2⟩ := a hi
+  obtain ⟨i3, s3⟩ := b i2
+  exact ⟨i3, fun x hx => ⟨(s3 x (s2 x hx).1).1, ((s3 x (s2 x hx).1).2).trans (s2 x hx).2⟩⟩
+
+theorem Heap.Ext.of_eq {h h' : Heap} (e1 : h'.bes = h.bes) (e2 : h'.nbe = h.nbe) (e3 : h'.trs = h.trs)
+    (e4 : h'.held = h.held) : h.Ext h' := by
+  intro hi
+  refine ⟨⟨?_, ?_, ?_⟩, ?_⟩
+  · rw [e4, e2]; exact hi.held_lt
+  · rw [e3, e2]; exact hi.be_lt
+  · rw [e3, e4]; exact hi.be_nh
+  · intro a ha; rw [e4, e1]; exact ⟨ha, rfl⟩
+
+theorem allocBE_ext (h : Heap) (b : BErr) : h.Ext (allocBE h b).1 := by
+  intro hi
+  refine ⟨⟨?_, ?_, ?_⟩, ?_⟩
+  · intro a ha; have := hi.held_lt a ha; simp [allocBE]; omega
+  · intro t a hta; have := hi.be_lt t a hta; simp [allocBE]; omega
+  · intro t a hta; exact hi.be_nh t a hta
+  · intro a ha
+    have := hi.held_lt a ha
+    refine ⟨ha, ?_⟩
+    simp [allocBE, upd]; omega
+
+theorem setTR_ext (h : Heap) (t : Nat) (v : TokRes) (hv : ∀ a, v.be = some a → a < h.nbe ∧ a ∉ h.held) :
+    h.Ext { h with trs := upd h.trs t v } := by
+  intro hi
+  refine ⟨⟨hi.held_lt, ?_, ?_⟩, fun a ha => ⟨ha, rfl⟩⟩
+  · intro t' a hta
+    by_cases e : t' = t
+    · simp [upd, e] at hta; exact (hv a hta).1
+    · simp [upd, e] at hta; exact hi.be_lt t' a hta
+  · intro t' a hta
+    by_cases e : t' = t
+    · simp [upd, e] at hta; exact (hv a hta).2
+    · simp [upd, e] at hta; exact hi.be_nh t' a hta
+
+theorem allocTR_ext (h : Heap) (v : TokRes) (hv : ∀ a, v.be = some a → a < h.nbe ∧ a ∉ h.held) :
+    h.Ext (allocTR h v).1 := by
+  refine (setTR_ext h h.ntr v hv).trans (Heap.Ext.of_eq rfl rfl ?_ rfl)
+  simp [allocTR]
+
+theorem newTokenResult_ext (h : Heap) (st : Nat) (b : BErr) : h.Ext (newTokenResult h st b).1 := by
+  intro hi
+  have h1 := allocBE_ext h b hi
+  have : (allocBE h b).1.Ext (newTokenResult h st b).1 := by
+    unfold newTokenResult
+    apply allocTR_ext
+    intro a ha
+    simp only [Option.some.injEq] at ha
+    subst ha
+    refine ⟨by simp [allocBE], ?_⟩
+    intro hmem
+    have := hi.held_lt _ (by simpa [allocBE] using hmem)
+    simp [allocBE] at this
+  obtain ⟨i2, s2⟩ := this h1.1
+  exact ⟨i2, fun x hx => ⟨(s2 x (h1.2 x hx).1).1, ((s2 x (h1.2 x hx).1).2).trans (h1.2 x hx).2⟩⟩
+
+theorem resetToPass_ext (h : Heap) (t : Nat) : h.Ext (resetToPass h t) := by
+  unfold resetToPass
+  exact setTR_ext h t _ (by simp)
+
+theorem resetToBlockedWith_ext (h : Heap) (t : Nat) (b : BErr) : h.Ext (resetToBlockedWith h t b) := by
+  intro hi
+  unfold resetToBlockedWith
+  cases hbe : (h.trs t).be with
+  | none =>
+    have h1 := allocBE_ext h b hi
+    have : (allocBE h b).1.Ext { (allocBE h b).1 with trs := upd (allocBE h b).1.trs t { status := 1, be := some h.nbe } } := by
+      apply setTR_ext
+      intro a ha
+      simp only [Option.some.injEq] at ha
+      subst ha
+      refine ⟨by simp [allocBE], ?_⟩
+      intro hmem
+      have := hi.held_lt _ (by simpa [allocBE] using hmem)
+      simp at this
+    obtain ⟨i2, s2⟩ := this h1.1
+    exact ⟨by simpa [allocBE] using i2, fun x hx => ⟨by simpa [allocBE] using (s2 x (h1.2 x hx).1).1,
+      by simpa [allocBE] using ((s2 x (h1.2 x hx).1).2).trans (h1.2 x hx).2⟩⟩
+  | some a =>
+    have hlt := hi.be_lt t a hbe
+    have hnh := hi.be_nh t a hbe
+    refine ⟨⟨hi.held_lt, ?_, ?_⟩, ?_⟩
+    · intro t' a' hta
+      by_cases e : t' = t
+      · simp [upd, e] at hta; subst hta; exact hlt
+      · simp [upd, e] at hta; exact hi.be_lt t' a' hta
+    · intro t' a' hta
+      by_cases e : t' = t
+      · simp [upd, e] at hta; subst hta; exact hnh
+      · simp [upd, e] at hta; exact hi.be_nh t' a' hta
+    · intro x hx
+      refine ⟨hx, ?_⟩
+      have : x ≠ a := fun e => hnh (e ▸ hx)
+      simp [upd, this]
+
+
+theorem poolGet_ext (h : Heap) : h.Ext (poolGet h).1 := by
+  unfold poolGet
+  cases h.priv with
+  | some c => exact Heap.Ext.of_eq rfl rfl rfl rfl
+  | none =>
+    cases h.shared with
+    | cons c r => exact Heap.Ext.of_eq rfl rfl rfl rfl
+    | nil => exact (newTokenResult_ext h 0 {}).trans (Heap.Ext.of_eq rfl rfl rfl rfl)
+
+theorem poolPut_ext (h : Heap) (c : Nat) : h.Ext (poolPut h c) := by
+  unfold poolPut
+  cases h.priv <;> exact Heap.Ext.of_eq rfl rfl rfl rfl
+
+theorem refurbish_ext (h : Heap) (c : Nat) : h.Ext (refurbish h c) :=
+  (resetToPass_ext h _).trans (poolPut_ext _ c)
+
+theorem doBlock_ext (c : Nat) (s : RSlot) (st : Style) (typ : Nat) (h : Heap) : h.Ext (doBlock c s st typ h).1 := by
+  cases st with
+  | fresh => exact newTokenResult_ext h 1 _
+  | ctx => exact resetToBlockedWith_ext h _ _
+  | own => exact resetToBlockedWith_ext h _ _
+
+theorem runRules_ext (c : Nat) (rs : List RSlot) (h : Heap) : h.Ext (runRules c rs h).1 := by
+  induction rs generalizing h with
+  | nil => exact Heap.Ext.refl h
+  | cons s r ih =>
+    cases hb : s.beh with
+    | panic => simpa [runRules, hb] using Heap.Ext.refl h
+    | block st typ => simpa [runRules, hb] using doBlock_ext c s st typ h
+    | wait => simpa [runRules, hb] using (newTokenResult_ext h 2 {}).trans (ih _)
+    | pass => simpa [runRules, hb] using (newTokenResult_ext h 0 {}).trans (ih _)
+    | nil => simpa [runRules, hb] using ih h
+
+theorem chainEntry_ext (ch : ChainDef) (c : Nat) (h : Heap) : h.Ext (chainEntry ch c h).1 := by
+  unfold chainEntry
+  rcases runPrep ch.ps with ⟨l1, k1, p1⟩
+  dsimp only
+  cases p1 with
+  | true => simpa using Heap.Ext.refl h
+  | false =>
+    simp only [Bool.false_eq_true, if_false]
+    have hr := runRules_ext c ch.rs h
+    rcases hrr : runRules c ch.rs h with ⟨h2, l2, k2, ro⟩
+    rw [hrr] at hr
+    dsimp only at hr
+    cases ro with
+    | panic => exact hr
+    | allPass => exact hr.trans (resetToPass_ext h2 _)
+    | blocked t => exact hr.trans (Heap.Ext.of_eq rfl rfl rfl rfl)
+
+theorem exitBody_ext (ss : List SSlot) (hooks : Hooks) (c : Nat) (h : Heap) : h.Ext (exitBody ss hooks c h).1 := by
+  simpa [exitBody] using refurbish_ext h c
+
+/-- the deep copy handed to the caller -/
+theorem hold_ext (h : Heap) (b : BErr) : h.Ext { (allocBE h b).1 with held := h.nbe :: h.held } := by
+  intro hi
+  refine ⟨⟨?_, ?_, ?_⟩, ?_⟩
+  · intro a ha
+    simp only [List.mem_cons] at ha
+    rcases ha with rfl | ha
+    · simp [allocBE]
+    · have := hi.held_lt a ha; simp [allocBE]; omega
+  · intro t a hta; have := hi.be_lt t a (by simpa [allocBE] using hta); simp [allocBE]; omega
+  · intro t a hta hmem
+    have hta' : (h.trs t).be = some a := by simpa [allocBE] using hta
+    simp only [List.mem_cons] at hmem
+    rcases hmem with rfl | hmem
+    · have := hi.be_lt t _ hta'; omega
+    · exact hi.be_nh t a hta' hmem
+  · intro a ha
+    have := hi.held_lt a ha
+    refine ⟨List.mem_cons_of_mem _ ha, ?_⟩
+    simp [allocBE, upd]; omega
+
+theorem apiEntry_ext (ch : ChainDef) (h : Heap) : h.Ext (apiEntry ch h).1 := by
+  unfold apiEntry
+  have hg := poolGet_ext h
+  rcases hpg : poolGet h with ⟨h1, c⟩
+  rw [hpg] at hg
+  dsimp only at hg ⊢
+  have hc := chainEntry_ext ch c h1
+  rcases hce : chainEntry ch c h1 with ⟨h2, l, ks, r⟩
+  rw [hce] at hc
+  dsimp only at hc ⊢
+  cases r with
+  | none => exact hg.trans hc
+  | some t =>
+    dsimp only
+    split_ifs
+    · cases getBE h2 t with
+      | none => exact hg.trans hc
+      | some b =>
+        dsimp only [allocBE]
+        exact (hg.trans hc).trans ((hold_ext h2 b).trans (exitBody_ext ch.ss ks c _))
+    · exact hg.trans hc
+
+theorem addSlot_ext (h : Heap) (ch : ChainDef) (x : SlotSpec) : h.Ext (addSlot h ch x).1 := by
+  cases x with
+  | p x => exact Heap.Ext.refl h
+  | s x => exact Heap.Ext.refl h
+  | r x =>
+    simp only [addSlot]
+    split_ifs
+    · exact (newTokenResult_ext h 0 {}).trans (Heap.Ext.of_eq rfl rfl rfl rfl)
+    · exact Heap.Ext.refl h
+
+theorem addSlots_ext (xs : List SlotSpec) (h : Heap) (ch : ChainDef) : h.Ext (addSlots xs h ch).1 := by
+  induction xs generalizing h ch with
+  | nil => exact Heap.Ext.refl h
+  | cons x r ih =>
+    unfold addSlots
+    have := addSlot_ext h ch x
+    rcases hx : addSlot h ch x with ⟨h1, ch1⟩
+    rw [hx] at this
+    exact this.trans (ih h1 ch1)
+
+@[simp] theorem setChain_h (s : State) (n : String) (ch : ChainDef) : (setChain s n ch).h = s.h := rfl
+@[simp] theorem setEntry_h (s : State) (r : EntryRec) : (setEntry s r).h = s.h := rfl
+
+theorem step_ext (s : State) (op : Op) : s.h.Ext (step s op).1.h := by
+  cases op with
+  | chain n slots =>
+    simp only [step, stepChain]
+    cases findChain s n with
+    | some _ => exact Heap.Ext.refl _
+    | none => exact addSlots_ext slots s.h {}
+  | add n slot =>
+    simp only [step, stepAdd]
+    cases findChain s n with
+    | none => exact Heap.Ext.refl _
+    | some ch => exact addSlot_ext s.h ch slot
+  | entry e n =>
+    simp only [step, stepEntry]
+    cases findEntry s e with
+    | some _ => exact Heap.Ext.refl _
+    | none =>
+      cases findChain s n with
+      | none => exact Heap.Ext.refl _
+      | some ch =>
+        have := apiEntry_ext ch s.h
+        simp only [recordEntry]
+        cases (apiEntry ch s.h).2.2 <;> exact this
+  | whenexit e id b =>
+    simp only [step, stepWhenExit]
+    cases findEntry s e with
+    | none => exact Heap.Ext.refl _
+    | some r =>
+      dsimp only
+      split_ifs <;> exact Heap.Ext.refl _
+  | exit e =>
+    simp only [step, stepExit]
+    cases findEntry s e with
+    | none => exact Heap.Ext.refl _
+    | some r =>
+      dsimp only
+      split_ifs
+      · exact Heap.Ext.refl _
+      · exact Heap.Ext.refl _
+      · cases findChain s r.chain with
+        | none => exact Heap.Ext.refl _
+        | some ch => exact exitBody_ext ch.ss r.hooks r.ctx s.h
+  | log => exact Heap.Ext.refl _
+  | ident e =>
+    simp only [step]
+    cases findEntry s e <;> exact Heap.Ext.refl _
+  | blockerr e =>
+    simp only [step, stepBlockErr]
+    cases findEntry s e with
+    | none => exact Heap.Ext.refl _
+    | some r => dsimp only; cases r.blockAt <;> exact Heap.Ext.refl _
+  | globalorder => exact Heap.Ext.refl _
+
+theorem runOps_ext (ops : List Op) (s : State) : s.h.Ext (runOps s ops).h := by
+  induction ops generalizing s with
+  | nil => exact Heap.Ext.refl _
+  | cons o r ih => exact (step_ext s o).trans (ih _)
+
+theorem init_inv : ({} : Heap).Inv := ⟨by simp, by simp, by simp⟩
+
 end Sentinel.Chain
